@@ -136,3 +136,18 @@ def draw_positions(chk, shards, density, nshards=8):
     for g in vlib.pmap(one, shards, n=len(shards)):
         out += g
     return out
+
+
+def family_positions(chk, family, shards, density, nshards=8):
+    """Positions of one Gen_Movegen family (position fields only)."""
+    def one(sh):
+        cfg = os.path.join(chk.outdir, "gfam_%s_%d.cfg" % (family, sh))
+        games.gen_cfg(cfg, {"FAMILY": family, "SHARD": sh, "NSHARDS": nshards, "DENSITY": density}, "INIT Init\nNEXT Next\n")
+        r = vlib.tlc("Gen_Movegen", cfg=cfg, timeout=3000, xmx="2g")
+        if r.error:
+            raise vlib.ToolError("Gen_Movegen %s: %s" % (family, r.error))
+        return [{k: d[k] for k in ("b", "stm", "cr", "ep", "hmc", "pl")} for t, d in r.reports if t == "GEN" and d["mvs"]]
+    out = []
+    for g in vlib.pmap(one, shards, n=len(shards)):
+        out += g
+    return out
